@@ -224,6 +224,7 @@ def b_dict(interp, args, kw, node):
     (m,) = args
     if isinstance(m, MapV):
         r = MapV(m.dom, m.val, m.key_t, m.val_t)
+        r.normal = isinstance(m, DMapV)        # the value function is `default` outside the key set
         if getattr(m, "keyfn", None) is not None:
             r.keyfn, r.keyobj_t = m.keyfn, m.keyobj_t
         return r
